@@ -336,9 +336,11 @@ void run_typed(const Execution &ex) {
             if (op == "Subscribe" || op == "SubscribeMuted") ok = hd.getSubject() == nullptr && run->next_id <= g_max_subs && h != "hf";
             else if (op == "UnsubF") ok = hd.getSubject() != nullptr && h != "hf";
             else if (op == "UnsubH") ok = hd.getSubject() != nullptr && h != "hf";
-            else if (op == "Mute") ok = h != "hf" && hd.isValid() && !hd.isMuted();
-            else if (op == "Unmute") ok = h != "hf" && hd.isValid() && hd.isMuted();
+            // mute() on a muted observer and unmute() on an unmuted one are legal and change nothing (MuteAgain / UnmuteAgain)
+            else if (op == "Mute") ok = h != "hf" && hd.isValid();
+            else if (op == "Unmute") ok = h != "hf" && hd.isValid();
             else if (op == "Invalidate") ok = h != "hf" && hd.isValid() && hd.getObserver()->isValid();
+            else if (op == "Drop") ok = h != "hf" && hd.getSubject() != nullptr;
             else if (op == "Swap") {
                 auto &h2 = run->H[st.str("h2")];
                 ok = h != "hf" && st.str("h2") != "hf" && h != st.str("h2") &&
@@ -367,6 +369,10 @@ void run_typed(const Execution &ex) {
                 run->H[h].unmute();
             } else if (op == "Invalidate") {
                 run->H[h].getObserver()->invalidate();
+            } else if (op == "Drop") {
+                // the handle is given up: a default handle takes its place, the old one is destroyed (the observer stays subscribed)
+                typename Run<Sig>::Sub fresh;
+                run->H[h] = std::move(fresh);
             } else if (op == "Swap") {
                 // h = std::move(h2) (move assignment swaps the two handles)
                 run->H[h] = std::move(run->H[st.str("h2")]);
